@@ -9,7 +9,7 @@ from ..domains.homog import HP, HomogDomain, Lin
 from ..effects import EffectAnalysis
 from ..repo import calls_in, dotted, norm_src, walk_no_nested
 from ..match import Matcher, src as msrc
-from .common import kwarg, need_funcs
+from .common import kwarg, need_funcs, swapped_argument_obligations
 
 P = "acryo/classification/_dask_pca.py::DaskPCA."
 C = "acryo/classification/pca.py::PcaClassifier."
@@ -128,6 +128,8 @@ def labels_clause(model, rep, funcs):
            node=(effs[0].node if effs else f.node), fn=f, clause="labels", stmt=(None if effs else "classify pure"))
     clf = [c for c in calls_in(f) if (dotted(c.func) or "") == "PcaClassifier"]
     okk = len(clf) == 1 and bool(ok)
+    for c_ in clf:
+        swapped_argument_obligations(model, rep, f, c_, "classifier")
     rep.ob("SLOT", f.anchor, "the classifier is run on the difference stack with the model's mask", okk, "", node=f.node, fn=f, clause="labels", stmt="classify clf")
     # masked difference: same wedge and transform on both
     g = funcs.get("acryo/alignment/_base.py::TomographyInput.masked_difference")
